@@ -183,7 +183,7 @@ def obligations(tier):
                           "stream": ["exchange-over-close", "activity", "idle-close"]}[req]
                 out.append(Ob("%s%s/%s" % (front, "Tls" if tls else "", req), h,
                               dict(front=front, tls=tls, req=req, K=K, Dmax=Dmax, timeouts=timeouts),
-                              budget=600 if quick else 1800, covers=covers,
+                              budget=600 if quick else 3600, covers=covers,
                               bounds=dict(passes=K, delta="0..%d per pass (symbolic)" % Dmax,
                                           timeout="%s (selector)" % timeouts, request=req,
                                           activity="idle | rx piece | response chunk | response end (selector)")))
